@@ -404,6 +404,9 @@ func r1main(c *core.Ctx) {
 
 	cfg := func(s string) bool { return strings.HasPrefix(s, "local:*stgutg.Conf#0.Configuration.") }
 	field := func(s string) string { return strings.TrimPrefix(s, "local:*stgutg.Conf#0.Configuration.") }
+	if mainUnreadable(c, R) {
+		return
+	}
 	total := 0
 	for _, body := range modeBodies(c) {
 		total += body.modes
